@@ -23,6 +23,19 @@ def mk_item(c, tag, required, parent=NONE):
     return c.obj(EXT + ":_BlockStackItem", tag, token=NONE, block=blk, required=required, source_name=c.str(tag + "_source"), parent=parent)
 
 
+@contract(EXT + ":BlockNode.__init__", prop="C18", name="BlockNode.__init__[never-blank]")
+def block_never_blank(c):
+    """a block's content can be replaced by a descendant's definition: whatever its own
+    default content is, the tag is never 'blank' (blank control-flow blocks are dropped)"""
+    body = c.obj("liquid.ast:BlockNode", "default_body", blank=c.bool("default_body_is_blank"))
+    tok = c.obj("liquid.token:Token", "tok", kind=const("tag"), value=const("block"), start_index=c.int("si"), source=c.str("src"))
+    self = c.obj(EXT + ":BlockNode", "self")
+    c.call(tok, c.str("name"), body, self_val=self, required=c.bool("required"))
+    c.ensures("block-tag-is-not-blank-whatever-its-default-content", lambda r: z3.Not(r.engine.truth(r.st, r.st.deref(self).fields["blank"])))
+    c.raises()
+    c.replay("code", code=REPLAY_BLANK)
+
+
 for _k in (0, 1, 2):
     def _mk(k):
         @contract(EXT + ":_store_blocks", prop="C18", name=f"_store_blocks[stack-depth-{k}]")
@@ -149,6 +162,17 @@ not_covered("C18", "that _find_inheritance_nodes reaches blocks nested in every 
             "BlockDrop['super'] rendering (bounded check)")
 
 bounded("C18", "bounded/C18.py")
+
+REPLAY_BLANK = r'''
+def run(m):
+    from liquid import DictLoader, Environment
+    env = Environment(extra=True, loader=DictLoader({
+        "base": "{% block outer %}{% block inner %}{% endblock %}{% endblock %}",
+        "child": "{% extends 'base' %}{% block inner %}INNER{% endblock %}"}))
+    got = env.get_template("child").render()
+    return {"violated": got != "INNER", "observed": got}
+'''
+
 
 REPLAY = r'''
 def run(m):
